@@ -123,6 +123,17 @@ def inputs(ctx, rng):
             o = progcheck.oracle_compile(v, name, progs[name], oracles)
             if "pyc" in o:
                 out.append(("compiled:%d.%d:%s" % (v[0], v[1], name), bytes.fromhex(o["pyc"]), ".pyc"))
+    # a file of the host's own minor series that is NOT the host's magic: the 3.8 alphas (3400/3401/3410/3411)
+    # have no co_posonlyargcount word, so only xdis's own unmarshaller can read them, also on a 3.8 host
+    if (3, 8) in core.ORACLES:
+        o = progcheck.oracle_compile((3, 8), "flat38a", "x = 1\ny = (x, 'a', b'b', 2.5, None)\nprint(y)\n", oracles)
+        if "pyc" in o:
+            pyc = bytes.fromhex(o["pyc"])
+            payload = pyc[16:]
+            if payload[:1] in (b"c", b"\xe3"):
+                for m in (3401, 3411):
+                    out.append(("interim:3.8a(%d):flat38a" % m,
+                                bytes([m & 255, m >> 8]) + pyc[2:16] + payload[:5] + payload[9:], ".pyc"))
     for o in oracles.values():
         o.close()
     return out
